@@ -20,8 +20,8 @@ def sim_part(run, exe_unused, results, env):
     # waiter): the generated program it was found with, kept as a fixed scenario of the K = 2 build
     import genprog
     conf = dict(genprog.gen(100021, "C02"), kthr=K2)
-    res = run_harness_env(exe2, ["random", "3000" if run.tier == "quick" else "60000", str(seed()), muconf.init_line(conf), REPLAYS], dict(os.environ, VERIF_PROP="C02"))
-    run.add("evaluations", 3000 if run.tier == "quick" else 60000)
+    res = run_harness_env(exe2, ["random", "12000" if run.tier == "quick" else "120000", str(seed()), muconf.init_line(conf), REPLAYS], dict(os.environ, VERIF_PROP="C02"))
+    run.add("evaluations", 12000 if run.tier == "quick" else 120000)
     run.cov.setdefault("random", []).append({"program": "K=2: reader/writer lockers + timed conditional waiter + setter (6.9)", "threads": len(conf["progs"]), "violations": len(res["viols"])})
     for v in res["viols"]:
         if v[0] in ("O-prog", "O-crash"):
